@@ -16,6 +16,8 @@ pub struct CutFile {
     pub full: Vec<(u32, Vec<Got>)>,
     /// first cut position explored (cuts before it coincide with those of another file of the list)
     pub from: usize,
+    /// Some(cuts): only these cut positions are explored (large files)
+    pub only: Option<Vec<usize>>,
 }
 
 fn read_all<R: std::io::Read + std::io::Seek>(r: &mut Mp4Reader<R>, upto: Option<&[(u32, Vec<Got>)]>) -> Vec<(u32, Vec<Got>)> {
@@ -55,6 +57,15 @@ pub fn files(tier: Tier, seed: u64) -> Vec<CutFile> {
     for (name, bytes) in crate::refmp4::kitchen::cut_layouts(tier) {
         raw.push((name, bytes, None));
     }
+    for (name, bytes, init) in crate::refmp4::kitchen::cut_fragmented_mixed() {
+        raw.push((name, bytes, init));
+    }
+    let mut only_of: std::collections::HashMap<String, Vec<usize>> = Default::default();
+    {
+        let (name, bytes, cuts) = crate::refmp4::kitchen::cut_large_sample();
+        only_of.insert(name.clone(), cuts);
+        raw.push((name, bytes, None));
+    }
     {
         let _ = tier;
         raw.push(("canned:big_buck_bunny_metadata.m4v (metadata, moov first)".into(), canned("big_buck_bunny_metadata.m4v"), None));
@@ -75,7 +86,8 @@ pub fn files(tier: Tier, seed: u64) -> Vec<CutFile> {
                 }
             };
             let from = from_of.get(&name).copied().unwrap_or(0);
-            CutFile { name, bytes, init, full, from }
+            let only = only_of.get(&name).cloned();
+            CutFile { name, bytes, init, full, from, only }
         })
         .collect()
 }
@@ -90,8 +102,13 @@ impl CutJob {
         let files = files(tier, seed);
         let mut units = vec![];
         for (fi, f) in files.iter().enumerate() {
-            for c in f.from..f.bytes.len() {
-                units.push((fi, c));
+            match &f.only {
+                Some(cuts) => units.extend(cuts.iter().map(|c| (fi, *c))),
+                None => {
+                    for c in f.from..f.bytes.len() {
+                        units.push((fi, c));
+                    }
+                }
             }
         }
         CutJob { files, units }
@@ -196,7 +213,7 @@ pub fn run(tier: Tier, seed: u64) -> i32 {
     ev.set("evaluations", json!(g("evaluations")));
     ev.set("distinct_nontrivial", json!(g("nontrivial:opened_prefix")));
     ev.set("transitions", json!(g("transitions")));
-    ev.set("rule", json!("one case = one (file, cut position) pair, every cut 0..len of every file (for the last-box variants of the movie-header-last file: every cut from the start of moov, the part before it being identical in all variants), each opened with size = cut; distinct by construction; non-trivial = the prefix still opens, so samples are actually compared with the complete file"));
+    ev.set("rule", json!("one case = one (file, cut position) pair, every cut 0..len of every file (for the file with a 1.5 MiB sample: the header region and the cuts within 3 bytes of every sample edge, every power of two and the 64 KiB / 1 MiB marks inside the large sample; for the last-box variants of the movie-header-last file: every cut from the start of moov, the part before it being identical in all variants), each opened with size = cut; distinct by construction; non-trivial = the prefix still opens, so samples are actually compared with the complete file"));
     let (variants, plain): (Vec<&CutFile>, Vec<&CutFile>) = job.files.iter().partition(|f| f.from > 0);
     ev.set("files", json!(plain.iter().map(|f| json!({"name": f.name, "len": f.bytes.len(), "samples": f.full.iter().map(|(_, v)| v.len()).sum::<usize>()})).collect::<Vec<_>>()));
     ev.set("last_box_variants", json!({"files": variants.len(), "what": "two-track movie-header-last file (ctts, stss, elst, co64, 3-run and 2-run stsc, iTunes metadata); one variant per box of moov, with that box moved to the very end of the file", "cuts_each": variants.first().map(|f| f.bytes.len() - f.from)}));
